@@ -15,7 +15,7 @@ import (
 
 type foreignUpd struct{ n *bgp.Notification }
 
-func (f *foreignUpd) Error() string                      { return "foreign update error" }
+func (f *foreignUpd) Error() string                     { return "foreign update error" }
 func (f *foreignUpd) AsSessionReset() *bgp.Notification { return f.n }
 
 type foreignErr struct{}
